@@ -99,6 +99,22 @@ StrNames == {<<<<l>>, ab>> : l \in StrLabels, ab \in BOOLEAN}
 T9 == {97, 48, 50, 53, 57, 46, 92, 64, 233}
 Texts == {<<>>} \cup UpTo(T9, KText)
 
+(* C01 (b'): several names read through ONE tokenizer (zone-file shape: the same owner text under
+   $ORIGIN example. and later under $ORIGIN EXAMPLE.).  A call is <<text, origin, relativize,
+   relativize_to>>; TokPairs = every ordered pair of calls whose texts are equal up to letter case,
+   so origins / relativize_to that differ only in case (and the same text under different origins)
+   meet inside one tokenizer.  Equal-as-DNS-names is NOT byte-identical: any memo keyed by Name
+   objects shows here. *)
+TokTexts == {<<119, 119, 119>>, <<87, 87, 87>>, <<64>>, <<97, 46, 87, 87, 87>>,
+             <<119, 119, 119, 46, 101, 120, 97, 109, 112, 108, 101, 46>>}               \* www WWW @ a.WWW www.example.
+ExampleLc == << <<101, 120, 97, 109, 112, 108, 101>>, <<>> >>                            \* example.
+ExampleUc == << <<69, 88, 65, 77, 80, 76, 69>>, <<>> >>                                  \* EXAMPLE.
+ExampleMc == << <<69, 120, 97, 109, 112, 108, 101>>, <<>> >>                             \* Example.
+TokOrigins == {NoOrigin, Some(Root), Some(ExampleLc), Some(ExampleUc), Some(ExampleMc)}
+TokRelTo == {NoOrigin, Some(ExampleLc), Some(ExampleUc)}
+TokCalls == {<<tx, o, r, rt>> : tx \in TokTexts, o \in TokOrigins, r \in BOOLEAN, rt \in TokRelTo}
+TokPairs == {p \in TokCalls \X TokCalls : LowerLabel(p[1][1]) = LowerLabel(p[2][1])}
+
 (* C01 (c): wire strings over the label-type / pointer byte classes *)
 W11 == {0, 1, 2, 63, 64, 128, 192, 193, 194, 196, 97}
 W8 == {0, 1, 2, 64, 192, 193, 194, 97}
